@@ -7,6 +7,7 @@ CONSTANTS
   MaxDepth = 4
   WithQueries = FALSE
   WithMerge = TRUE
+  Profile = "full"
 VIEW View
 CONSTRAINT Bound
 INVARIANT TypeOK
